@@ -137,6 +137,15 @@ def run(res, f, tier):
     ob(not poisoning, "C09|shared-cache-transparent",
        "the function cache shared by the rules of one evaluation is not transparent, so a rule's outcome can depend on the other rules: %s" % [v["what"][:160] for v in poisoning],
        {"c11_findings": [v["key"] for v in poisoning]})
+    # "in the order the rules were added": the ruleset evaluates self.rules front to back (above), so the order of
+    # outcomes is the order in which the builder stored the rules.  Those storage rules are C15's; imported.
+    import c15
+    r15 = Result("C15", "other")
+    c15.run(r15, f, tier)
+    order = [v for v in r15.violations if v["key"] in ("C15|with_rule", "C15|with_rules", "C15|build")]
+    ob(not order, "C09|rules-stored-in-order",
+       "the builder does not keep the rules in the order they were added, so the outcomes are not in that order either: %s" % [v["what"][:160] for v in order],
+       {"c15_findings": [v["key"] for v in order]})
     res.coverage = {
         "explanation": "All paths (rule loop unrolled %d times) of the coroutine bodies of RuleSet::evaluate_value and RuleSet::evaluate were enumerated with their "
                        "ordered calls; they must equal the specified path set: one push of Outcome{value: awaited per-rule result (no `?`), rule: the same rule} "
